@@ -92,3 +92,9 @@ Print Assumptions facts_getenv_generic_empty.
 Theorem facts_traits_operator_equals : gen_traits = model_traits.
 Proof. exact FactsCheck.match_traits. Qed.
 Print Assumptions facts_traits_operator_equals.
+
+(* Any declares copy operations and a destructor and therefore has NO move constructor / move assignment:
+   std::move(any) selects the copy operations (harness ops mc / ma are the model's ACtorCopy / AAssignCopy) *)
+Theorem facts_any_no_move_members : gen_anyspecial = model_anyspecial.
+Proof. exact FactsCheck.match_anyspecial. Qed.
+Print Assumptions facts_any_no_move_members.
